@@ -2,7 +2,7 @@
 import numpy as np
 
 from vf import util, sysrun
-from vf.problems import Manufactured, dtype_of, rng_for
+from vf.problems import TimeScaled, Manufactured, dtype_of, rng_for
 from vf.instrument import StepLog
 
 LEVEL = "exploration"
@@ -13,9 +13,9 @@ RULE = ("one case = (method or Richardson wrapper, direction, history shape, dt/
         "(method, direction, history, seed)")
 ASSUMPTIONS = ["interior bound: 4*(h^4*max|y''''|/384 + node error*(1+h*L)) + rounding; Richardson wrappers are compared at K*tolerance"]
 FLOORS = {"quick": {"quiescent_checks": 150, "pieces_checked": 2000, "queries_checked": 8000, "backward_runs_10_pieces": 20, "post_terminal_objects": 10,
-                    "post_failure_objects": 10, "splitting_runs": 4, "richardson_runs": 3, "failures_inside_a_retry": 3},
+                    "post_failure_objects": 10, "splitting_runs": 4, "richardson_runs": 3, "failures_inside_a_retry": 3, "richardson_runs_6_or_more_levels": 6, "time_scaled_runs": 9, "near_node_queries": 2000},
           "thorough": {"quiescent_checks": 800, "pieces_checked": 20000, "queries_checked": 50000, "backward_runs_10_pieces": 90, "post_terminal_objects": 50,
-                       "post_failure_objects": 50, "splitting_runs": 40, "richardson_runs": 30, "failures_inside_a_retry": 10}}
+                       "post_failure_objects": 50, "splitting_runs": 40, "richardson_runs": 30, "failures_inside_a_retry": 10, "richardson_runs_6_or_more_levels": 20, "time_scaled_runs": 50, "near_node_queries": 20000}}
 HISTORIES = ["single", "split", "terminal_continue", "fail_resume", "events_nonterminal", "query_between", "fail_in_retry"]
 QUICK_METHODS = ["RK45CKSolver", "DOPRI45", "RK4Solver", "EulerSolver", "HeunEulerSolver", "RK8713MSolver", "ABAs5o6HSolver", "SymplecticEulerSolver",
                  "BABs9o7HSolver", "BackwardEuler", "RadauIIA5", "GaussLegendre4", "CrankNicolson", "LobattoIIIC4", "MidpointSolver", "RK108Solver"]
@@ -57,7 +57,58 @@ def gen_cases(tier, seed):
                 t0 = float(rng.uniform(-3, 3))
                 cases.append(dict(method=base, rich=n, direction=d, history=h, t0=t0, tf=t0 + d * L, nsteps=20.0, rtol=10 ** float(rng.uniform(-7, -4)),
                                   pseed=int(rng.integers(1 << 30)), cost=10))
+    # Richardson wrappers with many levels: the extrapolation converges before the last level on most steps (pieces must still cover the step)
+    for base, n in [("RK4Solver", 6), ("MidpointSolver", 7), ("RK4Solver", 7), ("HeunsSolver", 6)] + ([] if tier == "quick" else [("RK5Solver", 6), ("MidpointSolver", 6), ("RalstonsSolver", 7)]):
+        for d in (1, -1):
+            for h in (["single"] if tier == "quick" else ["single", "split", "terminal_continue"]):
+                L = float(rng.uniform(2.0, 5.0))
+                t0 = float(rng.uniform(-3, 3))
+                cases.append(dict(method=base, rich=n, direction=d, history=h, t0=t0, tf=t0 + d * L, nsteps=6.0, rtol=10 ** float(rng.uniform(-12, -9)),
+                                  pseed=int(rng.integers(1 << 30)), cost=40))
+    # the same trajectories on compressed / stretched time axes (steps of 1e-10 .. 1e+7 time units): nothing in the dense output may be absolute in t
+    for name in (["RK4Solver", "RK45CKSolver", "RadauIIA5"] if tier == "quick" else ["RK4Solver", "RK45CKSolver", "RadauIIA5", "DOPRI45", "ABAs5o6HSolver", "GaussLegendre4", "EulerSolver"]):
+        for tau in ((1e-9, 1e6) if tier == "quick" else (1e-9, 1e-6, 1e-3, 1e6, 1e9)):
+            for d in (1, -1):
+                L = float(rng.uniform(1.5, 4.0))
+                t0 = float(rng.uniform(-3, 3))
+                cases.append(dict(method=name, rich=0, direction=d, history=str(rng.choice(["single", "split", "terminal_continue"])), t0=t0 * tau, tf=(t0 + d * L) * tau, tau=tau,
+                                  nsteps=float(rng.uniform(12, 40)), rtol=10 ** float(rng.uniform(-8, -4)), dtype="float64", pseed=int(rng.integers(1 << 30)),
+                                  cost=(2 if M[name]["explicit"] else 15)))
     return cases
+
+
+def _is_substep_chain(pieces, t, y, k, v, d):
+    """Structural attribution of KF09: the pieces inside recorded step k form a contiguous chain that STARTS (to a few ulp) at the recorded
+    state y[k-1], and sol(t[k]) is the end of that chain (the finest un-extrapolated sub-step result) - so the mismatch with the recorded,
+    extrapolated y[k] is exactly what the extrapolation gained. Anything else (missing pieces, a wrong piece answering) is not KF09."""
+    if k < 1:
+        return False
+    lo, hi = sorted([float(t[k - 1]), float(t[k])])
+    span = hi - lo
+    inside = []
+    for p in pieces:
+        a, b = float(p.t0), float(p.t1)
+        if min(a, b) >= lo - 1e-9 * span and max(a, b) <= hi + 1e-9 * span:
+            if d * (b - a) > 0:
+                inside.append((a, np.asarray(p.p0), b, np.asarray(p.p1)))
+            else:
+                inside.append((b, np.asarray(p.p1), a, np.asarray(p.p0)))
+    if not inside:
+        return False
+    inside.sort(key=lambda q: d * q[0])
+    ulps = 8 * float(np.finfo(np.asarray(y).dtype).eps) * (1 + float(np.max(np.abs(y[k]))))     # sub-step times and states are accumulated: a few ulp
+
+    def same(u, w):
+        return bool(np.max(np.abs(np.asarray(u, dtype=np.longdouble) - np.asarray(w, dtype=np.longdouble))) <= ulps)
+    tulp = 8 * 2.3e-16 * max(abs(lo), abs(hi), span)
+    if abs(inside[0][0] - float(t[k - 1])) > tulp or not same(inside[0][1], y[k - 1]):
+        return False
+    for q0, q1 in zip(inside[:-1], inside[1:]):
+        if abs(q0[2] - q1[0]) > tulp or not same(q0[3], q1[1]):
+            return False
+    if abs(inside[-1][2] - float(t[k])) > 1e-9 * span:
+        return False
+    return bool(np.max(np.abs(np.asarray(v) - inside[-1][3])) <= 1e-12 * (1 + float(np.max(np.abs(y[k])))))
 
 
 def _check_dense(rec, system, prob, spec, info, feats, f, label, rng):
@@ -92,7 +143,7 @@ def _check_dense(rec, system, prob, spec, info, feats, f, label, rng):
             if err > 10 * tolu:
                 # attribution: pieces are built from the finest UNextrapolated sub-steps, so they miss the recorded
                 # (extrapolated) state by the base method's error; anything grosser is something else
-                mech = "richardson_pieces_from_unextrapolated_substeps" if err <= 2000 * tolu else "richardson_dense_grossly_off"
+                mech = "richardson_pieces_from_unextrapolated_substeps" if _is_substep_chain(pieces, t, y, k, v, spec["direction"]) else "richardson_dense_off_and_not_a_substep_chain"
                 rec.violate("dense_node_value", mech, f2, k=k, err=err, tol=tolu)
                 break
         elif dt_ == np.float64 and not np.array_equal(v, y[k]):
@@ -164,7 +215,7 @@ def _check_dense(rec, system, prob, spec, info, feats, f, label, rng):
         node = max(float(np.max(np.abs(np.asarray(p.p0, dtype=np.longdouble) - prob.ystar(a)))),
                    float(np.max(np.abs(np.asarray(p.p1, dtype=np.longdouble) - prob.ystar(b)))))
         bound = 4 * (h ** 4 * d4 / 384.0 + node * (1 + h * Lip) * 2) + K * eps * 4
-        for th in (0.25, 0.5, 0.8):
+        for th in (1e-6, 0.25, 0.5, 0.8, 1 - 1e-6):
             q = np.asarray(a + th * (b - a), dtype=dt_)
             v = np.asarray(p(q), dtype=np.longdouble)
             e = float(np.max(np.abs(v - prob.ystar(float(q)))))
@@ -182,6 +233,34 @@ def _check_dense(rec, system, prob, spec, info, feats, f, label, rng):
             continue
         break
     rec.worst("interior_error_over_bound", worst_int)
+    # (5) "end slopes" means what it says: just inside a node the piece leaves its end state along its end slope,
+    #     p(t_node + delta) = p_node + m_node*delta + O(delta^2) (a dense output that is flat, or answers with a neighbour, next to a node fails here)
+    for i in pidx:
+        p = pieces[i]
+        a, b = float(p.t0), float(p.t1)
+        h = b - a
+        if h == 0 or p.m0 is None or p.m1 is None:
+            continue
+        p0l, p1l = np.asarray(p.p0, dtype=np.longdouble), np.asarray(p.p1, dtype=np.longdouble)
+        m0l, m1l = np.asarray(p.m0, dtype=np.longdouble), np.asarray(p.m1, dtype=np.longdouble)
+        scale = float(np.max(np.abs(p1l - p0l))) + abs(h) * (float(np.max(np.abs(m0l))) + float(np.max(np.abs(m1l))))
+        al, bl = np.asarray(p.t0, dtype=np.longdouble), np.asarray(p.t1, dtype=np.longdouble)
+        for (tn, pn, mn, th) in ((al, p0l, m0l, 1e-6), (bl, p1l, m1l, -1e-6), (al, p0l, m0l, 1e-3), (bl, p1l, m1l, -1e-3)):
+            q = np.asarray(tn + np.longdouble(th) * (bl - al), dtype=dt_)
+            delta = np.asarray(q, dtype=np.longdouble) - tn      # the offset actually used, after rounding q to the run's precision
+            if delta == 0:
+                continue
+            v = np.asarray(p(q), dtype=np.longdouble)
+            defect = float(np.max(np.abs(v - pn - mn * delta)))
+            bound = 8 * float(delta / h) ** 2 * scale + 16 * eps * (1 + float(np.max(np.abs(pn)))) + 4 * eps * scale
+            rec.bump("near_node_queries")
+            rec.worst("near_node_defect_over_bound", defect / bound)
+            if defect > bound:
+                rec.violate("dense_near_node", "piece_does_not_leave_its_end_state_along_its_end_slope", dict(f2, theta=abs(th)), piece=i, defect=defect, bound=bound, h=abs(h), delta=float(delta))
+                break
+        else:
+            continue
+        break
 
 
 def run_case(spec):
@@ -193,6 +272,8 @@ def run_case(spec):
     dt_ = dtype_of(spec.get("dtype", "float64"))
     dim = 2
     prob = Manufactured(dim, spec["pseed"], direction=d)
+    if spec.get("tau"):
+        prob = TimeScaled(prob, spec["tau"])
     rng = rng_for(602, spec["pseed"])
     label = spec["method"] + ("/R%d" % spec["rich"] if spec["rich"] else "")
     rec = util.Rec(sig="%s|%d|%s|%d" % (label, d, spec["history"], spec["pseed"] % 5))
@@ -289,5 +370,9 @@ def run_case(spec):
         rec.bump("splitting_runs")
     if spec["rich"]:
         rec.bump("richardson_runs")
+        if spec["rich"] >= 6:
+            rec.bump("richardson_runs_6_or_more_levels")
+    if spec.get("tau"):
+        rec.bump("time_scaled_runs")
     rec.sample = {"spec": {k: spec[k] for k in ("method", "rich", "direction", "history", "t0", "tf", "nsteps", "rtol")}, "pieces": npieces, "rows": len(system)}
     return rec.out()
